@@ -190,22 +190,8 @@ def run(ctx):
             so = ordering(f.op_origin(t["args"][3]))
             ctx.check(cur == 0 and new == 1 and so in ("Release", "AcqRel", "SeqCst"), "R13.2", "%s|cas-false-true-release" % name,
                       "shutdown sets the flag with compare_exchange(false, true, Release or stronger)", f.where(bb), "(%s,%s,%s)" % (cur, new, so))
-            cx = f.origin_call(bb, t)
-            succ = []
-            for b, expr, tt, ft in bool_branches(f):
-                if expr[0] == "call" and "Result::<T, E>::is_ok" in expr[1] and strip_site(expr[2][0]) == strip_site(cx):
-                    succ.append((b, tt))
-                if expr[0] == "call" and "Result::<T, E>::is_err" in expr[1] and strip_site(expr[2][0]) == strip_site(cx):
-                    succ.append((b, ft))
-            for b in sorted(f.live_blocks()):
-                ve = variant_edges(f, b)
-                if ve and strip_site(ve[0]) == strip_site(cx):
-                    succ += [(b, tgt) for n, tgt in ve[1] if n == "Ok"]
-            eff_sites = [b for b, tt in f.calls() if is_effectful(site_effects(F, f, b))]
-            ctx.check(bool(succ) and all(b not in f.reach([0], avoid_edges=succ) for b in eff_sites) and len(eff_sites) >= 1, "R13.2",
-                      "%s|body-once" % name, "the shutdown body (queueing Shutdown, stopping threads, clearing) runs only on the compare_exchange success edge: once per cache",
-                      f.where(bb), "effectful sites=%d" % len(eff_sites))
-            # a Shutdown command is queued on the success path, on every path
+            # per path (private helpers are merged, a local enum carrying the outcome is decided path-sensitively): anything
+            # effectful happens only after this compare_exchange succeeded, and the success path queues exactly one Shutdown
             A = AckModel(ctx)
             senders = set(A.send_fns)
             ch = True
@@ -215,9 +201,30 @@ def run(ctx):
                     if n2 not in senders and g.kind != "Closure" and any(tt.get("rpath") in senders for b2, tt in g.calls()):
                         senders.add(n2)
                         ch = True
-            sends = [b for b, tt in f.calls() if tt.get("rpath") in senders]
-            ctx.check(len(sends) == 1 and all(f.must_pass([tgt], sends) for _, tgt in succ), "R13.2", "%s|queues-shutdown" % name,
-                      "the success path queues exactly one Shutdown command", f.where(bb))
+            bad_once, bad_send = [], []
+            n_eff = n_succ = 0
+            for p in ipaths(F, f, stop=lambda n_: n_ in F.fns and F.fns[n_].kind != "Closure", depth=1):
+                cas = [e for e in p.events if e.fn is f and e.bb == bb]
+                if not cas:
+                    if any(not e.log and is_effectful(site_effects(F, e.fn, e.bb)) for e in p.events):
+                        bad_once.append("effects on a path that never attempts the flag transition")
+                    continue
+                v = p.variant_of(cas[0].res)
+                eff = [e for e in p.events if not e.log and e is not cas[0] and is_effectful(site_effects(F, e.fn, e.bb))]
+                n_eff += len(eff)
+                if eff and v != ("Ok",):
+                    bad_once.append("effectful call %s without the transition having succeeded" % eff[0].callee.split("::")[-1])
+                if any(e.seq < cas[0].seq for e in eff):
+                    bad_once.append("effectful call before the flag transition")
+                if v == ("Ok",):
+                    n_succ += 1
+                    if len(p.calls(senders)) != 1:
+                        bad_send.append("%d commands queued on the success path" % len(p.calls(senders)))
+            ctx.check(not bad_once and n_eff >= 1, "R13.2",
+                      "%s|body-once" % name, "the shutdown body (queueing Shutdown, stopping threads, clearing) runs only on the compare_exchange success edge: once per cache",
+                      f.where(bb), "; ".join(sorted(set(bad_once))[:2]) or "effectful events=%d" % n_eff)
+            ctx.check(not bad_send and n_succ >= 1, "R13.2", "%s|queues-shutdown" % name,
+                      "the success path queues exactly one Shutdown command", f.where(bb), "; ".join(sorted(set(bad_send))[:2]))
     # alternative idiom: `if flag.swap(true, ..) { return }`
     for name, f in F.fns.items():
         for bb, t in f.calls_to("std::sync::atomic::Atomic::<bool>::swap"):
